@@ -461,6 +461,10 @@ def attribute(case, message, bucket):
     return None
 
 
+# coverage-guided stage (atheris drives these Hypothesis shards, see vf/run.py): {tier: {shard kind: (shards, executions)}}
+CG = {'thorough': {'main': (6, 5000)}}
+
+
 def plan(tier, seed, scale=1.0):
     b = BOUNDS[tier]
     n = max(16, int(b["programs"] * scale))
